@@ -403,4 +403,8 @@ def allocBytes (c : Call) : Nat :=
   | some "Decoder24b" => 4 * (W - c.padW) * (H - padH) + (3 * W + (4 - (3 * W) % 4) % 4) * H
   | _ => 0
 
+/-- loop rounds / allocation of `bitd2bmp` on integer offsets -/
+def bitd2bmpStepsI (r : Request) : Steps := bitd2bmpSteps r.normalise
+def allocBytesI (r : Request) : Nat := allocBytes r.normalise
+
 end Drx.Bitd
